@@ -682,11 +682,44 @@ Lemma tr_colour_iff c c1 p1 size :
   (tr_colour c c1 p1 size = Red <-> pk c <> None /\ p1 < size).
 Proof.
   unfold tr_colour. destruct (pk c) as [[pir pbs]|].
-  - destruct (Qlt_le_dec p1 size); [|destruct (Qlt_le_dec c1 size)];
-      (split; [|split]); split; try discriminate; try (intros [H1 H2]; try specialize (H2 ltac:(discriminate)); lra);
-      intros _; split; try discriminate; try lra; intros; lra.
-  - destruct (Qlt_le_dec c1 size); (split; [|split]); split; try discriminate;
-      try (intros [H1 H2]; try lra; congruence); intros _; split; try lra; intros X; congruence.
+  - assert (NN : Some (pir, pbs) <> None) by discriminate.
+    destruct (Qlt_le_dec p1 size) as [Hp|Hp]; [|destruct (Qlt_le_dec c1 size) as [Hc|Hc]].
+    + split; [|split]; split.
+      * discriminate.
+      * intros [_ H]. specialize (H NN). lra.
+      * discriminate.
+      * intros [_ H]. specialize (H NN). lra.
+      * intros _. split; [exact NN|exact Hp].
+      * reflexivity.
+    + split; [|split]; split.
+      * discriminate.
+      * intros [H _]. lra.
+      * intros _. split; [exact Hc|intros _; exact Hp].
+      * reflexivity.
+      * discriminate.
+      * intros [_ H]. lra.
+    + split; [|split]; split.
+      * intros _. split; [exact Hc|intros _; exact Hp].
+      * reflexivity.
+      * discriminate.
+      * intros [H _]. lra.
+      * discriminate.
+      * intros [_ H]. lra.
+  - destruct (Qlt_le_dec c1 size) as [Hc|Hc].
+    + split; [|split]; split.
+      * discriminate.
+      * intros [H _]. lra.
+      * intros _. split; [exact Hc|intros X; congruence].
+      * reflexivity.
+      * discriminate.
+      * intros [H _]. congruence.
+    + split; [|split]; split.
+      * intros _. split; [exact Hc|intros X; congruence].
+      * reflexivity.
+      * discriminate.
+      * intros [H _]. lra.
+      * discriminate.
+      * intros [H _]. congruence.
 Qed.
 
 (* the k-th departure: its colour is decided by the two bucket levels (c1, p1) found on arrival at the head,
@@ -738,7 +771,7 @@ Proof.
     exfalso. apply Hnr. apply Rd. split; [discriminate|exact Hlt].
   - intros Hred. apply Rd in Hred as [Hpk Hlt]. rewrite Et, K5. unfold tr_dep.
     destruct (pk c) as [[pir pbs]|] eqn:E; [|congruence].
-    rewrite (release_wait _ _ _ _ Hlt). pose proof (tokwait_pos pir _ _ (Hp _ _ E) Hlt). lra.
+    rewrite (release_wait _ _ _ _ Hlt). pose proof (tokwait_pos pir _ _ (Hp _ _ eq_refl) Hlt). lra.
 Qed.
 
 (* ---------------------------------------------------------------------------------------------- *)
@@ -801,9 +834,16 @@ Qed.
 
 Definition qsum (l : list Q) : Q := fold_right Qplus 0 l.
 Lemma wsum_map {A} (f g k : A -> Q) (l : list A) : wsum (map (fun o => (f o, g o, k o)) l) = qsum (map f l).
-Proof. induction l as [|x l IH]; cbn; [reflexivity|]. unfold wsum in IH. rewrite IH. reflexivity. Qed.
+Proof.
+  induction l as [|x l IH]; [reflexivity|].
+  change (fst (fst (f x, g x, k x)) + wsum (map (fun o => (f o, g o, k o)) l) = f x + qsum (map f l)).
+  rewrite IH. reflexivity.
+Qed.
 Lemma pbytes_qsum (l : list pkt) : pbytes l = qsum (map sz l).
-Proof. induction l as [|x l IH]; cbn; [reflexivity|]. rewrite IH. reflexivity. Qed.
+Proof.
+  induction l as [|x l IH]; [reflexivity|].
+  change (sz x + pbytes l = sz x + qsum (map sz l)). rewrite IH. reflexivity.
+Qed.
 
 (* ---- conformance against the shaping bucket, and of the green traffic against (CIR, CBS) ---- *)
 Section Budgets.
@@ -836,7 +876,7 @@ Section Budgets.
     destruct (Qlt_le_dec lvl size) as [Hw|Hw].
     - rewrite (post_wait _ _ Hw). rewrite (release_wait _ _ _ _ Hw) in Hd.
       assert (E : fill r (d - U) == fill r (h - U) + (size - lvl)).
-      { rewrite <- (fill_tokwait r size lvl H), <- fill_add. apply fill_proper; [reflexivity|]. rewrite Hd. ring. }
+      { rewrite <- (fill_tokwait r size lvl Hr), <- fill_add. apply fill_proper; [reflexivity|]. rewrite Hd. ring. }
       rewrite E. lra.
     - rewrite (post_nowait _ _ Hw). rewrite (release_nowait _ _ _ _ Hw) in Hd.
       assert (E : fill r (d - U) == fill r (h - U)) by (apply fill_proper; [reflexivity|]; rewrite Hd; reflexivity).
@@ -853,7 +893,7 @@ Section Budgets.
     destruct (pk c) as [[pir pbs]|] eqn:E.
     - pose proof (refill_le_fill pbs pir P U (w_head o)) as Hf. rewrite <- K3 in Hf.
       pose proof (refill_le_B pbs pir P U (w_head o)) as Hb. rewrite <- K3 in Hb.
-      destruct (wait_budget pir P U (w_head o) (w_p o) (wsize o) (w_dep o) (Hp _ _ E) Hf K5) as [W1 W2].
+      destruct (wait_budget pir P U (w_head o) (w_p o) (wsize o) (w_dep o) (Hp _ _ eq_refl) Hf K5) as [W1 W2].
       split; [exact W1|]. split; [exact W2|]. split; [lra|].
       specialize (Ml pbs (wsize o)). specialize (Mr pbs (wsize o)).
       destruct (Qlt_le_dec (w_p o) (wsize o)) as [Hw|Hw]; [rewrite (post_wait _ _ Hw)|rewrite (post_nowait _ _ Hw)]; lra.
@@ -927,3 +967,425 @@ Section Budgets.
     destruct (green_step _ _ _ _ HC0 H0) as (_ & S2 & _). eapply IH; eauto.
   Qed.
 End Budgets.
+
+(* ---- from traces to services ---- *)
+Lemma map_snd_rv_dep R : map snd (rv_dep R) = map w_pkt R.
+Proof. unfold rv_dep. rewrite map_map. reflexivity. Qed.
+Lemma map_snd_rv_arr R : map snd (rv_arr R) = map w_pkt R.
+Proof. unfold rv_arr. rewrite map_map. reflexivity. Qed.
+
+Lemma bytes_slice_services tr R1 i j :
+  tpe (rfwds tr) (rv_dep R1) -> bytes (slice i j (rfwds tr)) = qsum (map wsize (slice i j R1)).
+Proof.
+  intros HD. unfold bytes. rewrite <- slice_map, (tpe_pkts _ _ HD), map_snd_rv_dep, slice_map, pbytes_qsum, map_map.
+  reflexivity.
+Qed.
+
+(* ---- trtb_shapes_against ---- *)
+(* all departures conform to the shaping bucket: (PIR, PBS), or (CIR, CBS) when no PIR is given *)
+Theorem trtb_shapes_against c t0 acts s tr :
+  trwf c -> tr_run true true c (tr0 true c t0) acts = Some (s, tr) ->
+  forall i j ti pi tj pj, (i <= j)%nat ->
+    nth_error (rfwds tr) i = Some (ti, pi) -> nth_error (rfwds tr) j = Some (tj, pj) ->
+    ti <= tj /\
+    bytes (slice i j (rfwds tr)) <= Qmax (shape_size c) (sz pi) + fill (shape_rate c) (tj - ti).
+Proof.
+  intros Hwf Hrun i j ti pi tj pj Hij Hi Hj. pose proof Hwf as [Hc Hp].
+  destruct (trtb_spec _ _ _ _ _ Hwf Hrun) as (R & HC & _ & HM).
+  destruct (tr_matches_fwds _ _ _ HM) as (R1 & R2 & -> & _ & HD & _). apply rchain_app_l in HC.
+  destruct (tpe_nth _ _ HD _ _ _ Hi) as (Ti & Hi' & Ei). destruct (tpe_nth _ _ HD _ _ _ Hj) as (Tj & Hj' & Ej).
+  destruct (rv_dep_nth _ _ _ _ Hi') as (oi & Hoi & <- & <-). destruct (rv_dep_nth _ _ _ _ Hj') as (oj & Hoj & <- & <-).
+  pose proof (shape_bchain c Hc Hp _ _ _ _ HC) as HB.
+  assert (Hi2 : nth_error (map (shape_item c) R1) i = Some (shape_item c oi)) by (rewrite nth_error_map, Hoi; reflexivity).
+  assert (Hj2 : nth_error (map (shape_item c) R1) j = Some (shape_item c oj)) by (rewrite nth_error_map, Hoj; reflexivity).
+  destruct (bchain_window _ _ _ _ _ _ _ _ _ _ _ _ HB Hij Hi2 Hj2) as [W Wt].
+  destruct (rchain_nth_step _ _ _ _ _ _ _ HC Hoi) as (C' & P' & U' & Hok & _).
+  destruct (shape_step c Hc Hp _ _ _ _ Hok) as (_ & _ & _ & Hcap).
+  split; [lra|].
+  rewrite (bytes_slice_services _ _ _ _ HD).
+  rewrite slice_map in W. unfold shape_item in W. rewrite wsum_map in W.
+  assert (Ef : fill (shape_rate c) (tj - ti) == fill (shape_rate c) (w_dep oj - w_dep oi)).
+  { apply fill_proper; [reflexivity|]. rewrite Ei, Ej. reflexivity. }
+  rewrite Ef. unfold wsize in *. lra.
+Qed.
+
+(* ---- trtb_green_conforms ---- *)
+(* green bytes among timed departures and their colours *)
+Fixpoint gbytes (l : list (Q * pkt)) (cs : list colour) : Q :=
+  match l, cs with
+  | x :: l', Green :: cs' => sz (snd x) + gbytes l' cs'
+  | _ :: l', _ :: cs' => gbytes l' cs'
+  | _, _ => 0
+  end.
+
+Lemma gbytes_services : forall R l, map snd l = map w_pkt R -> gbytes l (map w_col R) == qsum (map gsize R).
+Proof.
+  induction R as [|o R IH]; intros l Hl; destruct l as [|x l]; try discriminate; [reflexivity|].
+  cbn [map] in Hl. injection Hl as Hx Hl. specialize (IH _ Hl).
+  change (qsum (map gsize (o :: R))) with (gsize o + qsum (map gsize R)).
+  unfold gsize at 1, wsize. rewrite <- Hx. cbn [map gbytes]. destruct (w_col o); rewrite IH; lra.
+Qed.
+
+(* over any window of departures i..j the green bytes are within CBS + CIR * (t_j - t_i) / 8 *)
+Theorem trtb_green_conforms c t0 acts s tr :
+  trwf c -> 0 <= cbs c -> tr_run true true c (tr0 true c t0) acts = Some (s, tr) ->
+  forall i j ti pi tj pj, (i <= j)%nat ->
+    nth_error (rfwds tr) i = Some (ti, pi) -> nth_error (rfwds tr) j = Some (tj, pj) ->
+    gbytes (slice i j (rfwds tr)) (slice i j (rcols tr)) <= cbs c + fill (cir c) (tj - ti).
+Proof.
+  intros Hwf Hcbs Hrun i j ti pi tj pj Hij Hi Hj. pose proof Hwf as [Hc Hp].
+  destruct (trtb_spec _ _ _ _ _ Hwf Hrun) as (R & HC & _ & HM).
+  destruct (tr_matches_fwds _ _ _ HM) as (R1 & R2 & -> & _ & HD & HCol). apply rchain_app_l in HC.
+  destruct (tpe_nth _ _ HD _ _ _ Hi) as (Ti & Hi' & Ei). destruct (tpe_nth _ _ HD _ _ _ Hj) as (Tj & Hj' & Ej).
+  destruct (rv_dep_nth _ _ _ _ Hi') as (oi & Hoi & <- & <-). destruct (rv_dep_nth _ _ _ _ Hj') as (oj & Hoj & <- & <-).
+  pose proof (green_bchain c Hc Hp Hcbs _ _ _ _ Hcbs HC) as HB.
+  assert (Hi2 : nth_error (map (green_item c) R1) i = Some (green_item c oi)) by (rewrite nth_error_map, Hoi; reflexivity).
+  assert (Hj2 : nth_error (map (green_item c) R1) j = Some (green_item c oj)) by (rewrite nth_error_map, Hoj; reflexivity).
+  destruct (bchain_window _ _ _ _ _ _ _ _ _ _ _ _ HB Hij Hi2 Hj2) as [W Wt].
+  destruct (rchain_nonneg c Hc Hp Hcbs _ _ _ _ oi Hcbs HC (nth_error_In _ _ Hoi)) as (C' & P' & U' & HC0 & Hok).
+  destruct (green_step c Hc Hp Hcbs _ _ _ _ HC0 Hok) as (_ & _ & _ & Hcap).
+  assert (Eg : gbytes (slice i j (rfwds tr)) (slice i j (rcols tr)) == qsum (map gsize (slice i j R1))).
+  { rewrite HCol. unfold rv_col. rewrite slice_map. apply gbytes_services.
+    rewrite <- slice_map, (tpe_pkts _ _ HD), map_snd_rv_dep, slice_map. reflexivity. }
+  rewrite Eg. rewrite slice_map in W. unfold green_item in W. rewrite wsum_map in W.
+  assert (Ef : fill (cir c) (tj - ti) == fill (cir c) (w_dep oj - w_dep oi)).
+  { apply fill_proper; [reflexivity|]. rewrite Ei, Ej. reflexivity. }
+  rewrite Ef. lra.
+Qed.
+
+(* ---- conservation, FIFO, losslessness ---- *)
+Definition tr_in_service (s : trtb) : list pkt :=
+  match rphase_ s with RIdle => [] | RWaitPeak p _ => [p] | RWaitCommit p _ => [p] end.
+Definition tr_held (s : trtb) : list pkt := tr_in_service s ++ map snd (sq_held (rq s)).
+
+Theorem trtb_conserves c t0 acts s tr :
+  trwf c -> tr_run true true c (tr0 true c t0) acts = Some (s, tr) ->
+  map snd (rputs tr) = map snd (rfwds tr) ++ tr_held s.
+Proof.
+  intros [Hc Hp] Hrun. destruct (rreachable_inv c t0 Hc Hp _ _ _ Hrun) as [R HI].
+  rewrite (rinv_fifo _ _ _ _ _ HI), map_app, map_snd_rv_arr.
+  pose proof (rinv_phase _ _ _ _ _ HI) as P. unfold rphase_inv in P. unfold tr_held, tr_in_service.
+  destruct (rphase_ s) as [|p dl|p dl].
+  - destruct P as (P & _). rewrite (tpe_pkts _ _ P), map_snd_rv_dep. reflexivity.
+  - destruct P as (_ & _ & _ & R' & o & pir & pbs & -> & _ & Po & _ & _ & _ & _ & _ & P & _).
+    rewrite (tpe_pkts _ _ P), map_snd_rv_dep, map_app, <- app_assoc, <- Po. reflexivity.
+  - destruct P as (_ & _ & _ & R' & o & -> & _ & Po & _ & _ & _ & _ & _ & P & _).
+    rewrite (tpe_pkts _ _ P), map_snd_rv_dep, map_app, <- app_assoc, <- Po. reflexivity.
+Qed.
+
+Theorem trtb_fifo c t0 acts s tr :
+  trwf c -> tr_run true true c (tr0 true c t0) acts = Some (s, tr) ->
+  exists rest, map snd (rputs tr) = map snd (rfwds tr) ++ rest.
+Proof. intros Hwf Hrun. exists (tr_held s). eapply trtb_conserves; eauto. Qed.
+
+Theorem trtb_counters c t0 acts s tr :
+  trwf c -> tr_run true true c (tr0 true c t0) acts = Some (s, tr) ->
+  rrecv s = Z.of_nat (length (rputs tr)) /\ rsent s = Z.of_nat (length (rfwds tr)) /\
+  length (rcols tr) = length (rfwds tr).
+Proof.
+  intros [Hc Hp] Hrun. destruct (rreachable_inv c t0 Hc Hp _ _ _ Hrun) as [R HI].
+  split; [apply (rinv_recv _ _ _ _ _ HI)|]. split; [apply (rinv_sent _ _ _ _ _ HI)|].
+  destruct (tr_matches_fwds _ _ _ (RInv_matches _ _ _ _ _ HI)) as (R1 & R2 & _ & _ & HD & HCol).
+  rewrite HCol, (tpe_length _ _ HD). unfold rv_col, rv_dep. rewrite !map_length. reflexivity.
+Qed.
+
+Definition tr_quiescent (s : trtb) : Prop := tr_urgent s = false /\ rphase_ s = RIdle.
+
+Lemma tr_quiescent_held_empty c t0 s tr R : RInv c t0 s tr R -> tr_quiescent s -> tr_held s = [].
+Proof.
+  intros HI [U Hp]. unfold tr_urgent in U. apply orb_false_iff in U as [U _]. apply orb_false_iff in U as [Us Uq].
+  apply negb_false_iff in Us. pose proof (rinv_phase _ _ _ _ _ HI) as P. unfold rphase_inv, ridle_inv in P.
+  rewrite Hp, Us in P. destruct P as (_ & _ & _ & _ & _ & _ & _ & Pg & _).
+  unfold tr_held, tr_in_service. rewrite Hp. cbn [app].
+  assert (G : get (rq s) = GWaiting).
+  { pose proof (proj1 (sq_urgent_false _ _) Uq) as [_ Ug]. destruct (get (rq s)) as [| |x]; [contradiction|reflexivity|].
+    exfalso. apply (Ug x). reflexivity. }
+  rewrite (sq_waiting_quiet_held _ _ Uq (rinv_nostrand _ _ _ _ _ HI) G). reflexivity.
+Qed.
+
+Theorem trtb_lossless c t0 acts s tr :
+  trwf c -> tr_run true true c (tr0 true c t0) acts = Some (s, tr) -> tr_quiescent s ->
+  map snd (rfwds tr) = map snd (rputs tr).
+Proof.
+  intros Hwf Hrun HQ. pose proof Hwf as [Hc Hp]. destruct (rreachable_inv c t0 Hc Hp _ _ _ Hrun) as [R HI].
+  rewrite (trtb_conserves _ _ _ _ _ Hwf Hrun), (tr_quiescent_held_empty _ _ _ _ _ HI HQ), app_nil_r. reflexivity.
+Qed.
+
+(* ---------------------------------------------------------------------------------------------- *)
+(* the recurrence as a function of the arrivals (what the monitor of props/part_bucket.py computes) *)
+Fixpoint tr_rec (c : trcfg) (C P U : Q) (arr : list (Q * pkt)) : list rsvc :=
+  match arr with
+  | [] => []
+  | (a, p) :: rest =>
+      let h := Qmax a U in
+      let c1 := refill (cbs c) (cir c) C U h in
+      let p1 := match pk c with Some (pir, pbs) => refill pbs pir P U h | None => P end in
+      let o := {| w_pkt := p; w_arr := a; w_head := h; w_c := c1; w_p := p1;
+                  w_dep := tr_dep c h c1 p1 (sz p); w_col := tr_colour c c1 p1 (sz p) |} in
+      o :: tr_rec c (wpostC c o) (wpostP c o) (w_dep o) rest
+  end.
+
+Definition rec_cols (c : trcfg) (t0 : Q) (arr : list (Q * pkt)) : list colour :=
+  map w_col (tr_rec c (cbs c) (tr_P0 c) t0 arr).
+Definition rec_deps (c : trcfg) (t0 : Q) (arr : list (Q * pkt)) : list (Q * pkt) :=
+  rv_dep (tr_rec c (cbs c) (tr_P0 c) t0 arr).
+
+Lemma tr_colour_compat c c1 c1' p1 p1' size : c1 == c1' -> p1 == p1' -> tr_colour c c1 p1 size = tr_colour c c1' p1' size.
+Proof.
+  intros Ec Ep. unfold tr_colour. destruct (pk c).
+  - destruct (Qlt_le_dec p1 size), (Qlt_le_dec p1' size); try lra; [reflexivity|].
+    destruct (Qlt_le_dec c1 size), (Qlt_le_dec c1' size); try lra; reflexivity.
+  - destruct (Qlt_le_dec c1 size), (Qlt_le_dec c1' size); try lra; reflexivity.
+Qed.
+
+Lemma tr_dep_compat c h h' c1 c1' p1 p1' size :
+  h == h' -> c1 == c1' -> p1 == p1' -> tr_dep c h c1 p1 size == tr_dep c h' c1' p1' size.
+Proof. intros Eh Ec Ep. unfold tr_dep. destruct (pk c) as [[pir pbs]|]; apply release_compat; assumption. Qed.
+
+Lemma tr_postC_compat c h h' c1 c1' p1 p1' size d d' :
+  h == h' -> c1 == c1' -> p1 == p1' -> d == d' -> tr_postC c h c1 p1 size d == tr_postC c h' c1' p1' size d'.
+Proof.
+  intros Eh Ec Ep Ed. unfold tr_postC. destruct (pk c).
+  - destruct (Qlt_le_dec p1 size), (Qlt_le_dec p1' size); try lra; [apply refill_compat; assumption|].
+    destruct (Qlt_le_dec c1 size), (Qlt_le_dec c1' size); lra.
+  - apply post_compat. exact Ec.
+Qed.
+
+Lemma tr_postP_compat c p1 p1' size : p1 == p1' -> tr_postP c p1 size == tr_postP c p1' size.
+Proof. intros Ep. unfold tr_postP. destruct (pk c); [apply post_compat|]; exact Ep. Qed.
+
+(* a chain IS the recurrence on its own arrivals: same packets and colours, same instants and levels (==) *)
+Definition rsvc_eq (o o' : rsvc) : Prop :=
+  w_pkt o = w_pkt o' /\ w_arr o == w_arr o' /\ w_head o == w_head o' /\ w_c o == w_c o' /\ w_p o == w_p o' /\
+  w_dep o == w_dep o' /\ w_col o = w_col o'.
+
+Lemma rchain_rec c : forall R C P U C' P' U',
+  rchain c C P U R -> C == C' -> P == P' -> U == U' -> Forall2 rsvc_eq R (tr_rec c C' P' U' (rv_arr R)).
+Proof.
+  induction R as [|o R IH]; intros C P U C' P' U' HC EC EP EU; cbn [rv_arr map tr_rec]; [constructor|].
+  cbn [rchain] in HC. destruct HC as [(K1 & K2 & K3 & K4 & K5) HC].
+  set (h' := Qmax (w_arr o) U'). set (c1' := refill (cbs c) (cir c) C' U' h').
+  set (p1' := match pk c with Some (pir, pbs) => refill pbs pir P' U' h' | None => P' end).
+  assert (Eh : w_head o == h') by (rewrite K1; apply Qmax_compat_r; exact EU).
+  assert (Ec1 : w_c o == c1') by (rewrite K2; apply refill_compat; assumption).
+  assert (Ep1 : w_p o == p1').
+  { rewrite K3. unfold p1'. destruct (pk c) as [[pir pbs]|]; [apply refill_compat; assumption|exact EP]. }
+  assert (Ed : w_dep o == tr_dep c h' c1' p1' (sz (w_pkt o))) by (rewrite K5; apply tr_dep_compat; assumption).
+  constructor.
+  - unfold rsvc_eq. cbn [w_pkt w_arr w_head w_c w_p w_dep w_col]. repeat split; try assumption; try reflexivity.
+    rewrite K4. apply tr_colour_compat; assumption.
+  - apply (IH _ _ _ _ _ _ HC); unfold wpostC, wpostP, wsize; cbn [w_pkt w_arr w_head w_c w_p w_dep w_col].
+    + apply tr_postC_compat; assumption.
+    + apply tr_postP_compat; assumption.
+    + exact Ed.
+Qed.
+
+Lemma tr_rec_app c : forall l1 l2 C P U,
+  exists C' P' U', tr_rec c C P U (l1 ++ l2) = tr_rec c C P U l1 ++ tr_rec c C' P' U' l2.
+Proof.
+  induction l1 as [|[a p] l1 IH]; intros l2 C P U; cbn [app tr_rec]; [eauto|].
+  edestruct IH as (C' & P' & U' & E). exists C', P', U'. rewrite E. reflexivity.
+Qed.
+
+Lemma Forall2_rsvc_cols R R' : Forall2 rsvc_eq R R' -> map w_col R = map w_col R'.
+Proof. induction 1 as [|o o' R R' (_ & _ & _ & _ & _ & _ & E) _ IH]; cbn; [reflexivity|]. rewrite E, IH. reflexivity. Qed.
+
+Lemma Forall2_rsvc_deps R R' : Forall2 rsvc_eq R R' -> tpe (rv_dep R) (rv_dep R').
+Proof.
+  induction 1 as [|o o' R R' (E1 & _ & _ & _ & _ & E6 & _) _ IH]; cbn; [constructor|].
+  constructor; [cbn; split; assumption|exact IH].
+Qed.
+
+Lemma Forall2_len {A B} (Rl : A -> B -> Prop) l l' : Forall2 Rl l l' -> length l = length l'.
+Proof. induction 1; cbn; auto. Qed.
+
+Lemma Forall2_trans_tpe l1 l2 l3 : tpe l1 l2 -> tpe l2 l3 -> tpe l1 l3.
+Proof.
+  intros H. revert l3. induction H as [|x y l l' [E1 E2] _ IH]; intros l3 H3; inversion H3; subst; constructor.
+  - destruct H1 as [F1 F2]. split; [lra|congruence].
+  - apply IH. assumption.
+Qed.
+
+(* the colours and departures observed are, in order, those the recurrence computes from the arrivals *)
+Theorem trtb_is_recurrence c t0 acts s tr :
+  trwf c -> tr_run true true c (tr0 true c t0) acts = Some (s, tr) ->
+  exists n, rcols tr = firstn n (rec_cols c t0 (rputs tr)) /\ tpe (rfwds tr) (firstn n (rec_deps c t0 (rputs tr))) /\
+            n = length (rfwds tr) /\ (tr_quiescent s -> n = length (rputs tr)).
+Proof.
+  intros Hwf Hrun. pose proof Hwf as [Hc Hp].
+  destruct (rreachable_inv c t0 Hc Hp _ _ _ Hrun) as [R HI].
+  pose proof (rinv_chain _ _ _ _ _ HI) as HC. pose proof (rinv_fifo _ _ _ _ _ HI) as Hf.
+  destruct (tr_matches_fwds _ _ _ (RInv_matches _ _ _ _ _ HI)) as (R1 & R2 & -> & _ & HD & HCol).
+  exists (length R1).
+  pose proof (rchain_rec c _ _ _ _ _ _ _ (rchain_app_l _ _ _ _ _ _ HC) (Qeq_refl _) (Qeq_refl _) (Qeq_refl _)) as HF.
+  assert (Erec : exists rest, tr_rec c (cbs c) (tr_P0 c) t0 (rputs tr) = tr_rec c (cbs c) (tr_P0 c) t0 (rv_arr R1) ++ rest).
+  { rewrite Hf. unfold rv_arr at 1. rewrite map_app, <- app_assoc.
+    destruct (tr_rec_app c (map (fun o => (w_arr o, w_pkt o)) R1)
+                (map (fun o => (w_arr o, w_pkt o)) R2 ++ sq_held (rq s)) (cbs c) (tr_P0 c) t0) as (C' & P' & U' & E).
+    rewrite E. eauto. }
+  destruct Erec as [rest Erec].
+  assert (Hlen : length (tr_rec c (cbs c) (tr_P0 c) t0 (rv_arr R1)) = length R1).
+  { symmetry. eapply Forall2_len; eauto. }
+  split; [|split; [|split]].
+  - unfold rec_cols. rewrite Erec, map_app, firstn_app, map_length, Hlen, Nat.sub_diag. cbn [firstn].
+    rewrite app_nil_r, firstn_all2 by (rewrite map_length; lia).
+    rewrite HCol. apply Forall2_rsvc_cols. exact HF.
+  - unfold rec_deps. unfold rv_dep. rewrite Erec, map_app, firstn_app, map_length, Hlen, Nat.sub_diag. cbn [firstn].
+    rewrite app_nil_r, firstn_all2 by (rewrite map_length; lia).
+    eapply Forall2_trans_tpe; [exact HD|exact (Forall2_rsvc_deps _ _ HF)].
+  - rewrite (tpe_length _ _ HD). unfold rv_dep. rewrite map_length. reflexivity.
+  - intros HQ. pose proof (tr_quiescent_held_empty _ _ _ _ _ HI HQ) as He.
+    unfold tr_held in He. apply app_eq_nil in He as [He1 He2].
+    rewrite Hf. unfold rv_arr. rewrite app_length, map_length, app_length.
+    assert (length (sq_held (rq s)) = 0)%nat by (rewrite <- (map_length snd), He2; reflexivity).
+    assert (length R2 = 0)%nat.
+    { pose proof (rinv_phase _ _ _ _ _ HI) as P. unfold rphase_inv in P. destruct HQ as [_ HQ]. rewrite HQ in P.
+      destruct P as (P & _). pose proof (tpe_length _ _ P) as L1. pose proof (tpe_length _ _ HD) as L2.
+      unfold rv_dep in L1, L2. rewrite map_length in L1, L2. rewrite app_length in L1. lia. }
+    lia.
+Qed.
+
+(* ---------------------------------------------------------------------------------------------- *)
+(* the code as found, replayed inside Coq                                                          *)
+
+Lemma trwf_pir cir0 cbs0 pir pbs : 0 < cir0 -> 0 < pir -> trwf {| cir := cir0; cbs := cbs0; pk := Some (pir, pbs) |}.
+Proof. intros H1 H2. split; [exact H1|]. cbn. intros a b E. injection E as <- _. exact H2. Qed.
+
+(* as found, a yellow packet emptied the committed bucket: CIR 1024 / CBS 256 / PIR 1024 / PBS 2048, 256-byte
+   packets at 10, 11 and 25/2: the third is marked yellow although both buckets cover it *)
+Definition ry_c : trcfg := {| cir := 1024; cbs := 256; pk := Some (1024, 2048) |}.
+Definition ry_p (i : nat) : pkt := mkp i (Z.of_nat i + 1) 0 256 0.
+Definition ry_acts : list raction :=
+  [RInit; RAdvance 10; RPut (ry_p 0); RStoreCb; RGet; RAdvance 11; RPut (ry_p 1); RStoreCb; RGet;
+   RAdvance (25 # 2); RPut (ry_p 2); RStoreCb; RGet].
+
+Theorem trtb_yellow_refuted_before_fix :
+  exists c t0 acts s tr, trwf c /\ tr_run false true c (tr0 true c t0) acts = Some (s, tr) /\ tr_quiescent s /\
+    rcols tr = [Green; Yellow; Yellow] /\ rec_cols c t0 (rputs tr) = [Green; Yellow; Green].
+Proof.
+  exists ry_c, 0, ry_acts. eexists. eexists.
+  split; [apply trwf_pir; reflexivity|]. split; [vm_compute; reflexivity|].
+  split; [split; vm_compute; reflexivity|]. split; vm_compute; reflexivity.
+Qed.
+
+(* as found, the committed bucket lost the tokens of a red packet's wait: CIR 4096 / CBS 2048 / PIR 16384 /
+   PBS 2048, burst 100, 100, 1500, 1500 at 2 (the last one red, waiting 9/16 s), then 1500 at 19/4: marked
+   yellow (1468 committed tokens) instead of green (1756) *)
+Definition rr_c : trcfg := {| cir := 4096; cbs := 2048; pk := Some (16384, 2048) |}.
+Definition rr_p (i : nat) (size : Z) : pkt := mkp i (Z.of_nat i + 1) 0 size 0.
+Definition rr_acts : list raction :=
+  [RInit; RAdvance 2; RPut (rr_p 0 100); RPut (rr_p 1 100); RPut (rr_p 2 1500); RPut (rr_p 3 1500);
+   RStoreCb; RStoreCb; RStoreCb; RStoreCb; RGet; RGet; RGet; RGet; RAdvance (41 # 16); RTimer;
+   RAdvance (19 # 4); RPut (rr_p 4 1500); RStoreCb; RGet].
+
+Theorem trtb_red_refuted_before_fix :
+  exists c t0 acts s tr, trwf c /\ tr_run true false c (tr0 true c t0) acts = Some (s, tr) /\ tr_quiescent s /\
+    rcols tr = [Green; Green; Green; Red; Yellow] /\ rec_cols c t0 (rputs tr) = [Green; Green; Green; Red; Green].
+Proof.
+  exists rr_c, 0, rr_acts. eexists. eexists.
+  split; [apply trwf_pir; reflexivity|]. split; [vm_compute; reflexivity|].
+  split; [split; vm_compute; reflexivity|]. split; vm_compute; reflexivity.
+Qed.
+
+(* as found, update_time started at 0.0: with a negative initial time the full buckets are drained by the
+   first refill and the first packet, which both buckets cover, waits *)
+Theorem trtb_initially_full_refuted_before_fix :
+  exists c t0 acts s tr p, trwf c /\ tr_run true true c (tr0 false c t0) acts = Some (s, tr) /\
+    rputs tr = [(-1 # 2, p)] /\ sz p <= cbs c /\ sz p <= tr_P0 c /\ rfwds tr = [(-7 # 64, p)] /\ rcols tr = [Red].
+Proof.
+  exists {| cir := 1024; cbs := 100; pk := Some (2048, 128) |}, (-2),
+         [RInit; RAdvance (-1 # 2); RPut (mkp 2 3 0 100 (3 # 2)); RStoreCb; RGet; RAdvance (-7 # 64); RTimer].
+  eexists. eexists. exists (mkp 2 3 0 100 (3 # 2)).
+  split; [apply trwf_pir; reflexivity|]. split; [vm_compute; reflexivity|].
+  split; [vm_compute; reflexivity|]. split; [vm_compute; discriminate|]. split; [vm_compute; discriminate|].
+  split; vm_compute; reflexivity.
+Qed.
+
+(* ---------------------------------------------------------------------------------------------- *)
+(* non-vacuity: CIR 1024 (128 B/s) / CBS 256 / PIR 2048 (256 B/s) / PBS 512; three 256-byte packets at 0:
+   green (both buckets cover it), yellow (committed bucket empty, peak bucket covers it), red (peak bucket
+   empty: waits 256/256 = 1 s); a 128-byte packet at 2 finds 256 committed and 256 peak tokens: green *)
+Definition rx_c : trcfg := {| cir := 1024; cbs := 256; pk := Some (2048, 512) |}.
+Definition rx_p (i : nat) (size : Z) : pkt := mkp i (Z.of_nat i + 1) 0 size 0.
+Definition rx_acts : list raction :=
+  [RInit; RPut (rx_p 0 256); RPut (rx_p 1 256); RPut (rx_p 2 256); RStoreCb; RStoreCb; RStoreCb; RGet; RGet; RGet;
+   RAdvance 1; RTimer; RAdvance 2; RPut (rx_p 3 128); RStoreCb; RGet].
+
+Example trtb_example :
+  exists s tr, tr_run true true rx_c (tr0 true rx_c 0) rx_acts = Some (s, tr) /\
+    rcols tr = [Green; Yellow; Red; Green] /\
+    rfwds tr = [(0, rx_p 0 256); (0, rx_p 1 256); (1, rx_p 2 256); (2, rx_p 3 128)] /\
+    rec_cols rx_c 0 (rputs tr) = [Green; Yellow; Red; Green] /\
+    tr_quiescent s /\ trwf rx_c /\ 0 <= cbs rx_c.
+Proof.
+  eexists. eexists. split; [vm_compute; reflexivity|].
+  split; [vm_compute; reflexivity|]. split; [vm_compute; reflexivity|]. split; [vm_compute; reflexivity|].
+  split; [split; vm_compute; reflexivity|]. split; [apply trwf_pir; reflexivity|]. vm_compute. discriminate.
+Qed.
+
+(* ---------------------------------------------------------------------------------------------- *)
+(* C08 share: per-flow order, and "drained"                                                        *)
+
+Theorem trtb_flow_fifo c t0 acts s tr :
+  trwf c -> tr_run true true c (tr0 true c t0) acts = Some (s, tr) ->
+  forall f, exists rest, of_flow f (map snd (rputs tr)) = of_flow f (map snd (rfwds tr)) ++ rest.
+Proof.
+  intros Hwf Hrun f. rewrite (trtb_conserves _ _ _ _ _ Hwf Hrun). unfold of_flow. rewrite filter_app. eauto.
+Qed.
+
+Lemma tr_no_internal_step_quiet c t0 s tr R :
+  RInv c t0 s tr R -> rphase_ s = RIdle ->
+  (forall a, (forall p, a <> RPut p) -> (forall t, a <> RAdvance t) -> tr_act true true c s a = None) ->
+  tr_urgent s = false.
+Proof.
+  intros HI Hph Hno. pose proof (rinv_phase _ _ _ _ _ HI) as P. unfold rphase_inv, ridle_inv in P.
+  rewrite Hph in P. destruct P as (_ & _ & _ & _ & _ & P).
+  assert (Hs : rstarted s = true).
+  { destruct (rstarted s) eqn:Es; [reflexivity|]. exfalso. destruct P as (Pg & _ & _).
+    assert (H : tr_act true true c s RInit = None) by (apply Hno; intros; discriminate).
+    cbn [tr_act] in H. rewrite Es in H.
+    destruct (sq_get_enabled _ fifo_pop _ Pg) as [q Hq]. rewrite Hq in H. discriminate. }
+  rewrite Hs in P. destruct P as (_ & _ & Pg & _).
+  assert (Hp : pend (rq s) = 0%nat).
+  { destruct (pend (rq s)) as [|n] eqn:Ep; [reflexivity|]. exfalso.
+    assert (H : tr_act true true c s RStoreCb = None) by (apply Hno; intros; discriminate).
+    cbn [tr_act] in H. destruct (proj1 (sq_cb_enabled _ fifo_pop (rq s))) as [q Hq]; [lia|].
+    rewrite Hq in H. discriminate. }
+  assert (Hg : forall x, get (rq s) <> GGranted x).
+  { intros [a0 p] Gx.
+    assert (H : tr_act true true c s RGet = None) by (apply Hno; intros; discriminate).
+    unfold tr_act in H. rewrite Hph in H. destruct (sq_take_enabled _ _ _ Gx) as [q Hq]. rewrite Hq in H.
+    rewrite Hs in H. cbn [negb] in H.
+    pose proof (sq_take_inv _ _ _ _ Hq) as (_ & _ & _ & Gn).
+    destruct (sq_get_enabled _ fifo_pop _ Gn) as [q' Hq'].
+    unfold tr_forward in H. cbn [rq] in H. rewrite Hq' in H.
+    destruct (pk c) as [[pir pbs]|].
+    - destruct (Qlt_le_dec _ _); [discriminate|]. destruct (Qlt_le_dec _ _); discriminate.
+    - destruct (Qlt_le_dec _ _); discriminate. }
+  unfold tr_urgent, tr_due. rewrite Hs, Hph. cbn [negb orb]. rewrite orb_false_r.
+  apply sq_urgent_false. split; assumption.
+Qed.
+
+Theorem trtb_drained c t0 acts s tr :
+  trwf c -> tr_run true true c (tr0 true c t0) acts = Some (s, tr) ->
+  rphase_ s = RIdle ->
+  (forall a, (forall p, a <> RPut p) -> (forall t, a <> RAdvance t) -> tr_act true true c s a = None) ->
+  tr_held s = [] /\ map snd (rfwds tr) = map snd (rputs tr).
+Proof.
+  intros Hwf Hrun Hph Hno. pose proof Hwf as [Hc Hp]. destruct (rreachable_inv c t0 Hc Hp _ _ _ Hrun) as [R HI].
+  assert (HQ : tr_quiescent s) by (split; [eapply tr_no_internal_step_quiet; eauto|exact Hph]).
+  split; [eapply tr_quiescent_held_empty; eauto|eapply trtb_lossless; eauto].
+Qed.
+
+(* while a packet waits for tokens its timeout is pending and, when due, the server's step is enabled *)
+Theorem trtb_timer_enabled c t0 acts s tr :
+  trwf c -> tr_run true true c (tr0 true c t0) acts = Some (s, tr) ->
+  forall p dl, rphase_ s = RWaitPeak p dl \/ rphase_ s = RWaitCommit p dl ->
+    rnow s <= dl /\ (dl == rnow s -> exists s' o, tr_act true true c s RTimer = Some (s', o)).
+Proof.
+  intros Hwf Hrun p dl Hph. pose proof Hwf as [Hc Hp]. destruct (rreachable_inv c t0 Hc Hp _ _ _ Hrun) as [R HI].
+  pose proof (rinv_phase _ _ _ _ _ HI) as P. unfold rphase_inv in P.
+  destruct Hph as [Hph|Hph]; rewrite Hph in P; destruct P as (Ps & Pg & Pn & _); (split; [exact Pn|]); intros Ed;
+    unfold tr_act; rewrite Hph; apply Qeq_bool_iff in Ed; rewrite Ed;
+    destruct (sq_get_enabled _ fifo_pop _ Pg) as [q' Hq']; unfold tr_forward; cbn [rq]; rewrite Hq'; eauto.
+Qed.
